@@ -177,6 +177,13 @@ fn main() {
                     }
                 }
                 cx.out.case("read", &[parts.join(";"), hx(&msg)], &rp0, &format!("OK {}", hx(&payload)), None, &format!("model-{cls}"));
+                // the writing side as a machine: one-pass packets, streamed literal packet, signatures -- the model's staged
+                // producer (Msg/SignGen.v over Frame/PartialWriter.v) must emit exactly these octets
+                if cfg.enc == 0 && cfg.comp.is_none() && !cfg.armor {
+                    if let Some(pc) = cfg.pchunk { if msg.len() <= 40_000 {
+                        cx.out.case("signgen", &[pc.trailing_zeros().to_string(), hx(&payload), cfg.signers.len().to_string(), hx(&msg)], &rp0, &hx(&msg), None, "model-signgen");
+                    } }
+                }
             }
         }
     }
